@@ -56,6 +56,8 @@ func runHist(ci interface{}, s *vkit.Stats) error {
 	var kinds []string
 	sets := map[int]int{}
 	mode := map[int]bool{}
+	keepMode := map[int]bool{}
+	kept := map[int]mocker.VarMock{}
 	nontrivial := false
 	check := func(step int, what string) error {
 		for k, t := range st {
@@ -101,11 +103,28 @@ func runHist(ci interface{}, s *vkit.Stats) error {
 			t = &vstate{cur: snapshot(vi.Direct())}
 			st[k] = t
 		}
+		// a variable is driven either through freshly looked-up handles or, throughout the life of the builder, through the
+		// one handle obtained first (a kept handle that a later lookup superseded is no longer the builder's: not mixed)
+		if _, ok := keepMode[k]; !ok {
+			keepMode[k] = vkit.Pick(op.I[2]>>1, 3) == 0
+		}
 		mk := func() mocker.VarMock {
-			if byName {
-				return b.UnExportedVar(corpus.PkgPath + "." + vi.Name)
+			if keepMode[k] {
+				if h, ok := kept[k]; ok {
+					s.Class("through-kept-handle")
+					return h
+				}
 			}
-			return b.Var(vi.Ptr)
+			var h mocker.VarMock
+			if byName {
+				h = b.UnExportedVar(corpus.PkgPath + "." + vi.Name)
+			} else {
+				h = b.Var(vi.Ptr)
+			}
+			if keepMode[k] {
+				kept[k] = h
+			}
+			return h
 		}
 		what := fmt.Sprintf("%s %s byName=%v", op.K, vi.Name, byName)
 		switch op.K {
@@ -197,6 +216,7 @@ func runHist(ci interface{}, s *vkit.Stats) error {
 				sets[kk] = 0
 			}
 			b = mocker.Create()
+			kept = map[int]mocker.VarMock{}
 		}
 		if err := check(step, what); err != nil {
 			return err
